@@ -11,7 +11,8 @@ package apph
 //   * the CORRESPONDENCE sends "pre-state records + operation" to the Lean model (`olpdriver deleg`)
 //     and compares its predicted result code / post-state records with the observed ones.
 // A third kind of step runs the real pending stores on a bare storage.State and compares the keys
-// their range iterators report with the model's (`piter` / `rwiter`; S17).
+// their range iterators report with the model's (`piter` / `rwiter`; S17, fixed by 4adafc1: a
+// reported key of another height is a violation).
 //
 // A history is logged as a small script (`genesis` / `block` / `tx` lines) that `-replay` and the
 // corpus (corpus/C12/*.hist) re-execute.
@@ -1290,10 +1291,11 @@ func runDelegIter(res *Result, r *rng.R, driver string, cases int) error {
 		impl = append(impl, out)
 		res.Distribution[op]++
 		if other > 0 {
-			// the property is about reachable application states (maturity 4 keeps live heights
-			// below 10·h), so this is reported as a latent finding, never as a violation
+			// since commit 4adafc1 the range prefix ends with the separator: a key of another height
+			// (15 -> 150..159, S17) must never be reported again
 			res.Distribution[op+":reported-other-height"]++
-			res.MonitorHitCount["latent-pending-range-prefix"]++
+			l := lines[len(lines)-1]
+			res.Hit("pending-range-reports-other-height", c, fmt.Sprintf("%s -> %s", l, out), []string{l})
 		}
 	}
 	model, err := kv.RunDriver(driver, "deleg", lines)
@@ -1449,3 +1451,4 @@ func ReplayDeleg(driver, path string, out func(string, ...interface{})) (int, er
 	}
 	return 0, nil
 }
+
